@@ -147,65 +147,68 @@ theorem emitRange_spec (rs : Cons) (ns ne : Option Int) (x : Int)
 
 /-! ### INTEGER -/
 
-theorem sign_nonneg_ulong (rs : Cons) (h : nativeLongSign rs ≥ 0) : fitsLong rs = .ulong := by
-  unfold nativeLongSign at h
-  unfold fitsLong
-  cases hl : overallLo rs <;> cases hh : overallHi rs <;> simp only [hl, hh] at h ⊢
-  · simp at h
-  · simp at h
-  · split at h
-    · rename_i hc; simp [hc]
+/-- `unsigned long value` is declared only for an INTEGER held in an `unsigned long` or in an INTEGER_t -/
+theorem sign_nonneg_repr (rs : Cons) (h : nativeLongSign rs ≥ 0) :
+    fitsLong rs = .ulong ∨ fitsLong rs = .wide := by
+  cases hf : fitsLong rs with
+  | ulong => exact Or.inl rfl
+  | wide => exact Or.inr rfl
+  | long =>
+    exfalso
+    unfold nativeLongSign at h
+    simp only [hf] at h
+    unfold fitsLong at hf
+    cases hl : overallLo rs <;> cases hh : overallHi rs <;> simp only [hl, hh] at h hf
     · simp at h
-  · split at h
-    · rename_i hc; simp [hc]
     · simp at h
+    · split at h
+      · rename_i hc; simp [hc] at hf
+      · simp at h
+    · split at h
+      · rename_i hc; simp [hc] at hf
+      · simp at h
 
-theorem dropped_single (rs : Cons) (hd : dropped rs = true) (h1 : (rs.length == 1) = true) (x : Int) :
+theorem dropped_single (rs : Cons) (hd : dropped rs = true) (hne : rs ≠ []) (x : Int) :
     inCons rs x = true := by
-  match rs, h1 with
+  match rs, hne with
   | [r], _ =>
     simp [dropped, overallLo, overallHi] at hd
     simp [inCons, Range.mem, hd.1, hd.2]
+  | _ :: _ :: _, _ => simp [dropped] at hd
 
-theorem readInt_ok (rs : Cons) (i : Int) (h : reprOK (fitsLong rs) i = true) :
-    readInt (fitsLong rs) i = some i := by
+theorem readInt_ok (rs : Cons) (u : Bool) (i : Int) (h : reprOK (fitsLong rs) u i = true) :
+    readInt (fitsLong rs) u i = some i := by
   unfold readInt
-  cases hf : fitsLong rs <;> simp [hf, reprOK] at h ⊢
-  omega
+  cases hf : fitsLong rs <;> cases u <;> simp [hf, reprOK] at h ⊢ <;> omega
 
-theorem intNs_le (rs : Cons) (i : Int) (h : reprOK (fitsLong rs) i = true) :
+theorem intNs_le (rs : Cons) (i : Int) (h : reprOK (fitsLong rs) (decide (nativeLongSign rs ≥ 0)) i = true) :
     ∀ s, intNs rs = some s → s ≤ i := by
   intro s hs
   unfold intNs at hs
   split at hs
   · rename_i hsg
-    have := sign_nonneg_ulong rs hsg
-    simp [this, reprOK] at h
-    simp at hs; omega
+    simp only [hsg, decide_true] at h
+    simp at hs
+    rcases sign_nonneg_repr rs hsg with hf | hf <;> simp [hf, reprOK] at h <;> omega
   · simp at hs
 
 theorem genInt_spec (rs : Cons) (i : Int) (hd : intDom rs i = true) :
     genInt rs i = (if intTests rs then (if inCons rs i then Gen.pass else Gen.fail .constraintFailed) else Gen.noTest)
     ∧ (intTests rs = false → inCons rs i = true) := by
   unfold intDom at hd
-  simp only [Bool.and_eq_true, Bool.or_eq_true, Bool.not_eq_true', bne_iff_ne, ne_eq] at hd
-  obtain ⟨⟨⟨hne, hrep⟩, hmix⟩, hdrop⟩ := hd
+  simp only [Bool.and_eq_true, Bool.not_eq_true'] at hd
+  obtain ⟨⟨⟨hne, hrep⟩, hmix⟩, _⟩ := hd
   have hne0 : rs ≠ [] := by intro h; simp [h] at hne
   have hspec := emitRange_spec rs (intNs rs) none i (intNs_le rs i hrep) (by intro e h; cases h) hne0 hmix
   unfold genInt intTests
   by_cases hdr : dropped rs = true
-  · have h1 : (rs.length == 1) = true := by
-      rcases hdrop with h | h
-      · simp [hdr] at h
-      · exact h
-    have hin := dropped_single rs hdr h1 i
-    unfold dropped at hdr
-    simp [hdr, hin]
-    simp [dropped, hdr]
+  · have hin := dropped_single rs hdr hne0 i
+    have hdr2 : (decide (rs.length ≤ 1) && (overallLo rs).isNone && (overallHi rs).isNone) = true := hdr
+    simp [hdr2, hdr, hin]
   · have hdr' : dropped rs = false := by simpa using hdr
-    have hdr2 : ((overallLo rs).isNone && (overallHi rs).isNone) = false := hdr'
+    have hdr2 : (decide (rs.length ≤ 1) && (overallLo rs).isNone && (overallHi rs).isNone) = false := hdr'
     simp only [hdr2, Bool.false_eq_true, if_false, hdr', Bool.not_false, Bool.true_and]
-    simp only [readInt_ok rs i hrep]
+    simp only [readInt_ok rs _ i hrep]
     unfold codeAccepts at hspec
     have hns : (if nativeLongSign rs ≥ 0 then some (0:Int) else none) = intNs rs := rfl
     simp only [hns]
@@ -217,9 +220,9 @@ theorem genInt_spec (rs : Cons) (i : Int) (hd : intDom rs i = true) :
 
 /-! ### SIZE -/
 
-theorem keepSize_false_single (rs : Cons) (hk : keepSize rs = false) (h1 : (rs.length == 1) = true) (n : Nat) :
+theorem keepSize_false_single (rs : Cons) (hk : keepSize rs = false) (hne : rs ≠ []) (n : Nat) :
     inCons rs (n : Int) = true := by
-  match rs, h1 with
+  match rs, hne with
   | [r], _ =>
     simp [keepSize, overallLo, overallHi] at hk
     obtain ⟨hlo, hhi⟩ := hk
@@ -227,6 +230,7 @@ theorem keepSize_false_single (rs : Cons) (hk : keepSize rs = false) (h1 : (rs.l
     by_cases h : r.lo = some 0
     · simp [h]
     · simp [hlo h]
+  | _ :: _ :: _, _ => simp [keepSize] at hk
 
 /-- the size part of a generated checker: `none` = no test emitted -/
 def sizePart (size : Option Cons) (n : Nat) : Option Bool :=
@@ -272,10 +276,8 @@ theorem sizePart_spec (size : Option Cons) (n : Nat)
     · have hk' : keepSize rs = false := by simpa using hk
       simp only [hk', Bool.false_eq_true, if_false, inOpt]
       unfold sizeDom at hd
-      simp only [Bool.and_eq_true, Bool.or_eq_true] at hd
-      rcases hd.1.2 with h | h
-      · simp [hk'] at h
-      · exact keepSize_false_single rs hk' h n
+      simp only [Bool.and_eq_true, Bool.not_eq_true'] at hd
+      exact keepSize_false_single rs hk' (by intro h; simp [h] at hd) n
 
 theorem genSize_spec (rs : Cons) (n : Nat) (hd : sizeDom rs = true) :
     genSize rs n = (if sizeTests rs then (if inCons rs (n : Int) then Gen.pass else Gen.fail .constraintFailed) else Gen.noTest)
@@ -296,10 +298,8 @@ theorem genSize_spec (rs : Cons) (n : Nat) (hd : sizeDom rs = true) :
   · have hk' : keepSize rs = false := by simpa using hk
     simp only [hk', Bool.false_eq_true, if_false, Bool.false_and, true_implies]
     unfold sizeDom at hd
-    simp only [Bool.and_eq_true, Bool.or_eq_true] at hd
-    rcases hd.1.2 with h | h
-    · simp [hk'] at h
-    · exact ⟨trivial, keepSize_false_single rs hk' h n⟩
+    simp only [Bool.and_eq_true, Bool.not_eq_true'] at hd
+    exact ⟨trivial, keepSize_false_single rs hk' (by intro h; simp [h] at hd) n⟩
 
 /-! ### characters -/
 
@@ -485,7 +485,7 @@ theorem kept_nonempty (rs : Cons) (hd : sizeDom rs = true) (hk : keepSize rs = t
     (emitRange rs (some 0) none).isEmpty = false := by
   unfold sizeDom at hd
   simp only [Bool.and_eq_true, Bool.or_eq_true, Bool.not_eq_true'] at hd
-  obtain ⟨⟨⟨hne, hmix⟩, _⟩, hlo⟩ := hd
+  obtain ⟨⟨⟨hne, hmix⟩, hlo⟩, _⟩ := hd
   unfold mixedFree at hmix
   simp only [Bool.or_eq_true, decide_eq_true_eq] at hmix
   rcases hmix with hlen | hall
@@ -599,14 +599,13 @@ theorem strDom_parts {k : StrKind} {size alpha : Option Cons} {bs : List Nat} {u
     (∀ b ∈ bs, b < 256) ∧
     (k = .bit → u ≤ 7 ∧ (bs = [] → u = 0)) ∧
     (sizeOptDom size = true) ∧
-    (∀ rs, alpha = some rs → k ≠ .octet ∧ k ≠ .bit ∧ k ≠ .utf8 ∧ alphaDom k rs = true) ∧
-    (k = .utf8 → utf8Agree bs = true) ∧
-    (k = .bmp → ∀ c ∈ loopChars 2 bs.length bs, c ≤ 65533) := by
+    (∀ rs, alpha = some rs → k ≠ .octet ∧ k ≠ .bit ∧ (k = .utf8 → useTable .utf8 rs = true) ∧ alphaDom k rs = true) ∧
+    (k = .utf8 → utf8Agree bs = true) := by
   unfold strDom at hd
   simp only [Bool.and_eq_true, Bool.or_eq_true, List.all_eq_true, decide_eq_true_eq, bne_iff_ne, ne_eq,
     Bool.not_eq_true', beq_iff_eq] at hd
-  obtain ⟨⟨⟨⟨⟨h1, h2⟩, h3⟩, h4⟩, h5⟩, h6⟩ := hd
-  refine ⟨h1, ?_, h3, ?_, ?_, ?_⟩
+  obtain ⟨⟨⟨⟨h1, h2⟩, h3⟩, h4⟩, h5⟩ := hd
+  refine ⟨h1, ?_, h3, ?_, ?_⟩
   · intro hk
     rcases h2 with h2 | h2
     · exact absurd hk h2
@@ -615,20 +614,19 @@ theorem strDom_parts {k : StrKind} {size alpha : Option Cons} {bs : List Nat} {u
       · simp [he] at h
       · exact h
   · intro rs hrs
-    simp only [hrs, Bool.and_eq_true, bne_iff_ne, ne_eq] at h4
-    exact ⟨h4.1.1.1, h4.1.1.2, h4.1.2, h4.2⟩
-  · intro hk
-    rcases h5 with h | h
+    simp only [hrs, Bool.and_eq_true, Bool.or_eq_true, bne_iff_ne, ne_eq] at h4
+    refine ⟨h4.1.1.1, h4.1.1.2, fun hk => ?_, h4.2⟩
+    rcases h4.1.2 with h | h
     · exact absurd hk h
     · exact h
   · intro hk
-    rcases h6 with h | h
+    rcases h5 with h | h
     · exact absurd hk h
     · exact h
 
 theorem genStr_octet (size alpha : Option Cons) (bs : List Nat) (u : Nat)
     (hd : strDom .octet size alpha bs u = true) : GenStrSpec .octet size alpha bs u := by
-  obtain ⟨_, _, hsd, hal, _, _⟩ := strDom_parts hd
+  obtain ⟨_, _, hsd, hal, _⟩ := strDom_parts hd
   have halpha : alpha = none := by
     cases alpha with
     | none => rfl
@@ -641,7 +639,7 @@ theorem genStr_octet (size alpha : Option Cons) (bs : List Nat) (u : Nat)
 
 theorem genStr_bit (size alpha : Option Cons) (bs : List Nat) (u : Nat)
     (hd : strDom .bit size alpha bs u = true) : GenStrSpec .bit size alpha bs u := by
-  obtain ⟨_, hbit, hsd, hal, _, _⟩ := strDom_parts hd
+  obtain ⟨_, hbit, hsd, hal, _⟩ := strDom_parts hd
   obtain ⟨hu, hemp⟩ := hbit rfl
   have halpha : alpha = none := by
     cases alpha with
@@ -707,7 +705,7 @@ theorem genStr_8bit (k : StrKind) (h8 : is8bit k = true) (rs0 : Cons) (hdef : De
     (hbit : (k == .bit) = false)
     (size alpha : Option Cons) (bs : List Nat) (u : Nat)
     (hd : strDom k size alpha bs u = true) : GenStrSpec k size alpha bs u := by
-  obtain ⟨hb, _, hsd, hal, _, _⟩ := strDom_parts hd
+  obtain ⟨hb, _, hsd, hal, _⟩ := strDom_parts hd
   let B := bs.all (fun c => builtinChar k c && inOpt alpha (c : Int))
   apply genStrSpec_of k size alpha bs u bs.length B (hsz bs u) hsd
   · simp [strSat, hbit, strSatisfies, hchars, B]
@@ -769,7 +767,7 @@ theorem genStr_wide (k : StrKind) (w : Nat) (hw0 : 0 < w) (hw : charWidth k = w)
     (size alpha : Option Cons) (bs : List Nat) (u : Nat)
     (hdmem : ∀ c ∈ loopChars w bs.length bs, inCons rs0 (c : Int) = true)
     (hd : strDom k size alpha bs u = true) : GenStrSpec k size alpha bs u := by
-  obtain ⟨hb, _, hsd, hal, _, _⟩ := strDom_parts hd
+  obtain ⟨hb, _, hsd, hal, _⟩ := strDom_parts hd
   let cs := loopChars w bs.length bs
   let B := decide (bs.length % w = 0) && cs.all (fun c => inOpt alpha (c : Int))
   have hlen : cs.length = bs.length / w := loopChars_length w hw0 _ bs (Nat.le_refl _)
@@ -819,11 +817,11 @@ theorem genStr_wide (k : StrKind) (w : Nat) (hw0 : 0 < w) (hw : charWidth k = w)
 
 theorem genStr_bmp (size alpha : Option Cons) (bs : List Nat) (u : Nat)
     (hd : strDom .bmp size alpha bs u = true) : GenStrSpec .bmp size alpha bs u := by
-  have hp := (strDom_parts hd).2.2.2.2.2 rfl
+  have hb := (strDom_parts hd).1
   refine genStr_wide .bmp 2 (by omega) rfl (by decide) (toCons compilerBmp) rfl (by decide +kernel) (by decide +kernel)
     (by decide +kernel) (fun _ => rfl) (fun _ _ => rfl) (fun _ _ _ => rfl) rfl (fun _ => rfl) size alpha bs u ?_ hd
   intro c hc
-  have := hp c hc
+  have := loopChars_bound 2 bs.length bs hb c hc
   simp [compilerBmp, toCons, inCons, Range.mem]
   omega
 
@@ -837,45 +835,185 @@ theorem genStr_universal (size alpha : Option Cons) (bs : List Nat) (u : Nat)
   simp [compilerUniversal, toCons, inCons, Range.mem]
   omega
 
+/-! UTF-8 and the 7-bit characters: a code point below 128 is encoded as itself, every other
+    well-formed sequence denotes a code point ≥ 128 -/
+
+theorem utf8Step_ascii (cp : Nat) (bs rest : List Nat) (h : utf8Step bs = some (cp, rest)) (hc : cp < 128) :
+    bs = cp :: rest := by
+  unfold utf8Step at h
+  split at h
+  · cases h
+  · rename_i b0 r
+    split at h
+    · simp at h; obtain ⟨h1, h2⟩ := h; subst h1; subst h2; rfl
+    · exfalso
+      split at h
+      · rename_i hb
+        simp only [Bool.and_eq_true, decide_eq_true_eq] at hb
+        split at h
+        · split at h
+          · simp at h; omega
+          · cases h
+        · cases h
+      · split at h
+        · split at h
+          · dsimp only at h
+            split at h
+            · rename_i hcond
+              simp at hcond h
+              omega
+            · cases h
+          · cases h
+        · split at h
+          · split at h
+            · dsimp only at h
+              split at h
+              · rename_i hcond
+                simp at hcond h
+                omega
+              · cases h
+            · cases h
+          · cases h
+
+theorem utf8Decode_ascii (fuel : Nat) (bs : List Nat) (hf : bs.length ≤ fuel) (h : ∀ b ∈ bs, b < 128) :
+    utf8Decode fuel bs = some bs := by
+  induction fuel generalizing bs with
+  | zero => cases bs with
+    | nil => simp [utf8Decode]
+    | cons b bs => simp at hf
+  | succ n ih =>
+    cases bs with
+    | nil => simp [utf8Decode]
+    | cons b bs =>
+      have hb : b < 128 := h b (by simp)
+      simp only [List.length_cons] at hf
+      simp [utf8Decode, utf8Step, hb, ih bs (by omega) (fun x hx => h x (by simp [hx]))]
+
+theorem utf8Decode_all_ascii (fuel : Nat) (bs cs : List Nat) (hd : utf8Decode fuel bs = some cs)
+    (h : ∀ c ∈ cs, c < 128) : bs = cs := by
+  induction fuel generalizing bs cs with
+  | zero => cases bs with
+    | nil => simp [utf8Decode] at hd; exact hd.symm
+    | cons b bs => simp [utf8Decode] at hd
+  | succ n ih =>
+    cases bs with
+    | nil => simp [utf8Decode] at hd; exact hd.symm
+    | cons b bs =>
+      simp only [utf8Decode] at hd
+      cases hs : utf8Step (b :: bs) with
+      | none => simp [hs] at hd
+      | some p =>
+        obtain ⟨cp, rest⟩ := p
+        simp only [hs] at hd
+        cases hr : utf8Decode n rest with
+        | none => simp [hr] at hd
+        | some cs' =>
+          simp [hr] at hd
+          subst hd
+          have hcp : cp < 128 := h cp (by simp)
+          have := utf8Step_ascii cp (b :: bs) rest hs hcp
+          rw [this, ih rest cs' hr (fun c hc => h c (by simp [hc]))]
+
+/-- a FROM within 0..127 on UTF8String, tested octet by octet through the 128-entry table: the
+    test holds iff the octets decode and every code point is permitted -/
+theorem utf8_table_spec (rs : Cons) (bs : List Nat) (hlt : ∀ x : Nat, inCons rs (x : Int) = true → x < 128) :
+    (bs.all fun cv => !(decide (cv ≥ 128)) && inCons rs (cv : Int)) =
+      (match utf8Decode bs.length bs with
+       | none => false
+       | some cs => cs.all fun c => inCons rs (c : Int)) := by
+  cases hT : (bs.all fun cv => !(decide (cv ≥ 128)) && inCons rs (cv : Int)) with
+  | true =>
+    simp only [List.all_eq_true, Bool.and_eq_true, Bool.not_eq_true', decide_eq_false_iff_not] at hT
+    have hdec := utf8Decode_ascii bs.length bs (Nat.le_refl _) (fun b hb => by have := (hT b hb).1; omega)
+    simp only [hdec]
+    symm
+    simp only [List.all_eq_true]
+    exact fun c hc => (hT c hc).2
+  | false =>
+    cases hdec : utf8Decode bs.length bs with
+    | none => rfl
+    | some cs =>
+      simp only []
+      cases hA : (cs.all fun c => inCons rs (c : Int)) with
+      | false => rfl
+      | true =>
+        exfalso
+        simp only [List.all_eq_true] at hA
+        have heq := utf8Decode_all_ascii bs.length bs cs hdec (fun c hc => hlt c (hA c hc))
+        subst heq
+        have : (bs.all fun cv => !(decide (cv ≥ 128)) && inCons rs (cv : Int)) = true := by
+          simp only [List.all_eq_true, Bool.and_eq_true, Bool.not_eq_true', decide_eq_false_iff_not]
+          exact fun b hb => ⟨by have := hlt b (hA b hb); omega, hA b hb⟩
+        rw [this] at hT; cases hT
+
+theorem useTable_utf8_lt (rs : Cons) (ht : useTable .utf8 rs = true) (hfin : (overallHi rs).isSome = true)
+    (x : Nat) (hin : inCons rs (x : Int) = true) : x < 128 := by
+  unfold useTable at ht
+  simp only [Bool.and_eq_true, Bool.or_eq_true, decide_eq_true_eq, bne_self_eq_false, Bool.false_or] at ht
+  cases ho : overallHi rs with
+  | none => simp [ho] at hfin
+  | some h =>
+    have := inCons_le_overallHi rs x h hin ho
+    have h2 := ht.2
+    simp [ho] at h2
+    omega
+
 theorem genStr_utf8 (size alpha : Option Cons) (bs : List Nat) (u : Nat)
     (hd : strDom .utf8 size alpha bs u = true) : GenStrSpec .utf8 size alpha bs u := by
-  obtain ⟨_, _, hsd, hal, hagree, _⟩ := strDom_parts hd
-  have halpha : alpha = none := by
-    cases alpha with
-    | none => rfl
-    | some rs => exact absurd rfl (hal rs rfl).2.2.1
-  subst halpha
+  obtain ⟨_, _, hsd, hal, hagree⟩ := strDom_parts hd
   have hag : utf8Length bs.length bs = (utf8Decode bs.length bs).map List.length := by
     have := hagree rfl
     unfold utf8Agree at this
     simpa using this
-  have hac : ∀ g, alphaCheck .utf8 none g bs = if g then none else some (utf8Length bs.length bs).isSome := by
-    intro g
-    simp [alphaCheck, alphaRanges, defaultAlphabet, useTable]
-  have hsat : strSat .utf8 size none bs u =
-      (match utf8Decode bs.length bs with | none => false | some cs => inOpt size (cs.length : Int)) := by
-    simp [strSat, strSatisfies, chars, builtinChar, inOpt]
-    cases utf8Decode bs.length bs <;> simp
+  -- the alphabet part: `B` on the decoded code points, `al g` the emitted test
+  have key : ∃ (al : Bool → Option Bool) (B : List Nat → Bool),
+      (∀ g, alphaCheck .utf8 alpha g bs = al g) ∧
+      (strSat .utf8 size alpha bs u =
+        (match utf8Decode bs.length bs with | none => false | some cs => inOpt size (cs.length : Int) && B cs)) ∧
+      -- with a SIZE test the alphabet test is absent or equals `B`
+      (∀ cs, utf8Decode bs.length bs = some cs → match al true with | none => B cs = true | some b => b = B cs) ∧
+      -- without a SIZE test the alphabet test is there and decides well-formedness and `B`
+      (al false = some (match utf8Decode bs.length bs with | none => false | some cs => B cs)) := by
+    cases alpha with
+    | none =>
+      refine ⟨fun g => if g then none else some (utf8Length bs.length bs).isSome, fun _ => true, ?_, ?_, ?_, ?_⟩
+      · intro g; simp [alphaCheck, alphaRanges, defaultAlphabet, useTable, overallHi]
+      · simp [strSat, strSatisfies, chars, builtinChar, inOpt]
+        cases utf8Decode bs.length bs <;> simp
+      · intro cs _; simp
+      · simp only [Bool.false_eq_true, if_false, hag]
+        cases utf8Decode bs.length bs <;> simp
+    | some rs =>
+      obtain ⟨_, _, htab, had⟩ := hal rs rfl
+      have htab := htab rfl
+      unfold alphaDom at had
+      simp only [Bool.and_eq_true, Bool.or_eq_true, Bool.not_eq_true'] at had
+      obtain ⟨⟨⟨_, hfin⟩, _⟩, _⟩ := had
+      have hspec := utf8_table_spec rs bs (useTable_utf8_lt rs htab hfin)
+      refine ⟨fun _ => some (bs.all fun cv => !(decide (cv ≥ 128)) && inCons rs (cv : Int)),
+              fun cs => cs.all fun c => inCons rs (c : Int), ?_, ?_, ?_, ?_⟩
+      · intro g; simp [alphaCheck, alphaRanges, htab]
+      · simp [strSat, strSatisfies, chars, builtinChar, inOpt]
+        cases utf8Decode bs.length bs <;> simp
+      · intro cs hcs; simp only [hspec, hcs]
+      · simp only [hspec]
+  obtain ⟨al, B, hac, hsat, hsz, hnosz⟩ := key
   unfold GenStrSpec
   rw [hsat]
   unfold genStr
   cases hk : keptSize size with
   | none =>
-    simp only [hac, Option.isSome_none, Bool.false_eq_true, if_false]
+    simp only [hac, hnosz]
     have hvac : ∀ n : Nat, inOpt size (n : Int) = true := by
       intro n
       have := sizePart_spec size n hsd
       simp only [sizePart, hk] at this
       exact this
     cases hdec : utf8Decode bs.length bs with
-    | none =>
-      have : utf8Length bs.length bs = none := by rw [hag, hdec]; rfl
-      simp [this, combine]
-    | some cs =>
-      have : utf8Length bs.length bs = some cs.length := by rw [hag, hdec]; rfl
-      simp [this, combine, hvac]
+    | none => simp [combine]
+    | some cs => cases hB : B cs <;> simp [combine, hvac, hB]
   | some rs =>
-    simp only [hac, Option.isSome_some, if_true, strSize]
+    simp only [hac, strSize]
     cases hdec : utf8Decode bs.length bs with
     | none =>
       have : utf8Length bs.length bs = none := by rw [hag, hdec]; rfl
@@ -885,8 +1023,7 @@ theorem genStr_utf8 (size alpha : Option Cons) (bs : List Nat) (u : Nat)
       simp only [hl]
       have hs := sizePart_spec size cs.length hsd
       simp only [sizePart, hk] at hs
-      have hc := combine_cases (sizeTest rs cs.length) none (inOpt size (cs.length : Int)) true hs (by simp)
-      simp only [Bool.and_true] at hc
+      have hc := combine_cases (sizeTest rs cs.length) (al true) (inOpt size (cs.length : Int)) (B cs) hs (hsz cs hdec)
       refine ⟨hc.1, fun h => ⟨_, hc.2.1 h⟩, fun h => ?_⟩
       -- a kept SIZE always prints a test
       exfalso
@@ -920,7 +1057,7 @@ theorem vacuous_size (size : Option Cons) (hsd : sizeOptDom size = true) (hk : k
 theorem builtinStr_spec (k : StrKind) (nm : String) (size : Option Cons) (bs : List Nat) (u : Nat)
     (hd : strDom k size none bs u = true) (hk : keptSize size = none) :
     builtinStr k nm bs u = .ok ↔ strSat k size none bs u = true := by
-  obtain ⟨hb, hbit, hsd, _, hagree, _⟩ := strDom_parts hd
+  obtain ⟨hb, hbit, hsd, _, hagree⟩ := strDom_parts hd
   have hv := vacuous_size size hsd hk
   cases k with
   | octet => simp [builtinStr, strSat, strSatisfies, chars, builtinChar, inOpt_none, hv]
